@@ -864,3 +864,27 @@ def unlet(n, env=None, _mut=None):
             out["expr"] = unlet(n["expr"], env2, _mut)
         return out
     return {k: unlet(v, env, _mut) for k, v in n.items()}
+
+
+def beta(n):
+    """copy of n with calls of closures reduced (`(|a, b| a + b)(x, y)` becomes `x + y`) and calls through a path to an inherent
+    integer method written as a function value (`i64::wrapping_add(a, b)`) rewritten as the method call `a.wrapping_add(b)` —
+    used after inline_helpers + unlet so that an operation handed to a shared helper as a function value reads like the
+    operation written in place"""
+    import re as _re
+    if isinstance(n, list):
+        return [beta(x) for x in n]
+    if not isinstance(n, dict):
+        return n
+    n = {k: beta(v) for k, v in n.items()}
+    if n.get("k") == "call" and isinstance(n.get("f"), dict):
+        f = strip(n["f"])
+        args = n.get("args", [])
+        if f.get("k") == "closure" and len(f.get("params", [])) == len(args) and all(p.get("k") == "bind" and "sub" not in p for p in f["params"]):
+            env = {p["id"]: a for p, a in zip(f["params"], args)}
+            return beta(_subst(f["body"], env))
+        path = (f.get("res", {}) or {}).get("path") or n.get("callee") or ""
+        m = _re.match(r"^core::num::<impl ([iu](?:8|16|32|64|128|size))>::(\w+)$", path)
+        if m and f.get("k") == "path" and args:
+            return {"k": "mcall", "m": m.group(2), "recv": args[0], "args": args[1:], "callee": path, "recv_ty": m.group(1), "ty": n.get("ty"), "line": n.get("line")}
+    return n
